@@ -32,6 +32,32 @@ def only_unresolved_choice(a, b):
     return bool(d) and all(UNRESOLVED_RE.match(m) for m in d)
 
 
+_COLL = {}
+
+
+def path_collision_only(chk, binp, doc, a, b):
+    """the two results differ only in reports about defaults / examples, and the document has two places with one dotted path
+    in one walk of the default / example validators (a -> b and "a.b"): which of them is judged depends on map order"""
+    if doc is None or "visited-path-collision" not in chk.known or a["valid"] != b["valid"]:
+        return False
+    d = (set(X.normalise(a["errors"])) ^ set(X.normalise(b["errors"]))) | (set(X.normalise(a.get("warnings", []))) ^ set(X.normalise(b.get("warnings", []))))
+    if not d or not all(".default" in m or ".example" in m for m in d):
+        return False
+    key = json.dumps(doc, sort_keys=True)
+    if key not in _COLL:
+        seen, dup = set(), False
+        for r in C.harness_parallel(binp, "sites", [{"id": 0, "doc": doc}], shards=1):
+            for st in r.get("sites") or []:
+                if st["walked"]:
+                    k = (st["group"], st["path"])
+                    dup = dup or k in seen
+                    seen.add(k)
+        _COLL[key] = dup
+    if _COLL[key]:
+        chk.known_hit.setdefault("visited-path-collision", "document with two places of one dotted path")
+    return _COLL[key]
+
+
 def run_cases(chk, binp, cases, pf_ok, pf):
     J = X.observe(binp, cases)
     bad = []
@@ -53,6 +79,8 @@ def run_cases(chk, binp, cases, pf_ok, pf):
                         and "unresolved-reference-choice" in chk.known:
                     chk.known_hit.setdefault("unresolved-reference-choice", "document with several dangling references: %s" % json.dumps(c.get("edits", c.get("origin")))[:200])
                     continue
+                if again["outcome"] == base["outcome"] == "ok" and path_collision_only(chk, binp, c.get("doc"), again, base):
+                    continue
                 if again["outcome"] != base["outcome"] or again["valid"] != base["valid"] or \
                         X.normalise(again["errors"]) != X.normalise(base["errors"]) or X.normalise(again["warnings"]) != X.normalise(base["warnings"]):
                     problems.append({"what": "validating the same document again gave another result (%s)" % key,
@@ -60,6 +88,8 @@ def run_cases(chk, binp, cases, pf_ok, pf):
                                      "again": {"valid": again["valid"], "errors": again["errors"][:12], "warnings": again["warnings"][:6]}})
                     break
         missing = [e for e in X.normalise(stop["errors"]) if e not in X.normalise(cont["errors"])]
+        if missing and all(".default" in m for m in missing) and path_collision_only(chk, binp, c.get("doc"), dict(stop, errors=missing, warnings=[]), dict(stop, errors=[], warnings=[])):
+            missing = []
         if missing:
             problems.append({"what": "an error reported when stopping early is not reported with continue-on-errors", "missing": missing[:6]})
         for name, r in (("stop-early", stop), ("continue", cont)):
@@ -74,6 +104,8 @@ def run_cases(chk, binp, cases, pf_ok, pf):
         for i, (dr, base) in enumerate(zip(j["rec"].get("defaults", []), (stop, cont, stop))):
             defaults_runs[0] += 1
             if dr["outcome"] == "ok" and dr["valid"] == base["valid"] and only_unresolved_choice(dr["errors"], base["errors"]) and "unresolved-reference-choice" in chk.known:
+                continue
+            if dr["outcome"] == "ok" and path_collision_only(chk, binp, c.get("doc"), dict(dr, warnings=[]), dict(base, warnings=[])):
                 continue
             if dr["outcome"] != "ok" or dr["valid"] != base["valid"] or X.normalise(dr["errors"]) != X.normalise(base["errors"]):
                 problems.append({"what": "validation through the package-level defaults (global switch set to %s, step %d of false/true/false) differs from the same options set on the validator"
@@ -91,6 +123,8 @@ def run_cases(chk, binp, cases, pf_ok, pf):
         for c, r in members[1:]:
             if r["valid"] == ref["valid"] and only_unresolved_choice(r["errors"], ref["errors"]) and "unresolved-reference-choice" in chk.known:
                 chk.known_hit.setdefault("unresolved-reference-choice", "member-order variant of a document with several dangling references")
+                continue
+            if path_collision_only(chk, binp, c.get("doc"), r, ref):
                 continue
             if r["valid"] != ref["valid"] or X.normalise(r["errors"]) != X.normalise(ref["errors"]) or X.normalise(r["warnings"]) != X.normalise(ref["warnings"]):
                 bad.append((c, [{"what": "a serialisation variant (member order) of the same document gives another result",
@@ -120,6 +154,8 @@ def run_cases(chk, binp, cases, pf_ok, pf):
                 if u["valid"] == f["valid"] and only_unresolved_choice(u["errors"], f["errors"]) and "unresolved-reference-choice" in chk.known:
                     continue
                 same = seqs[r["id"]].get("same_doc")
+                if path_collision_only(chk, binp, seqs[r["id"]]["docs"][min(i, len(seqs[r["id"]]["docs"]) - 1)], u, f):
+                    continue
                 if same and u["valid"] == f["valid"] and X.normalise(u["errors"]) == X.normalise(f["errors"]) and \
                         any(UNRESOLVED_RE.match(m) for m in f["errors"]) and \
                         all(m.endswith("is not used anywhere") for m in set(X.normalise(u["warnings"])) ^ set(X.normalise(f["warnings"]))) and \
